@@ -761,8 +761,28 @@ func checkGroupRemovedOnlyWhenEmpty(c *engine.Ctx, rule string) {
 			// (a) a removal helper of the leave functions
 			cs := callers[f]
 			onlyLeaves := len(cs) > 0
+			var isLeave func(g *ssa.Function, d int) bool
+			isLeave = func(g *ssa.Function, d int) bool {
+				for g.Parent() != nil {
+					g = g.Parent()
+				}
+				if g.Name() == "CloseListener" {
+					return true
+				}
+				// a step split out of the leave function (unexported, called only by leave functions)
+				o, ok := g.Object().(*types.Func)
+				if !ok || o.Exported() || d > 2 || len(callers[g]) == 0 {
+					return false
+				}
+				for _, cg := range callers[g] {
+					if !isLeave(cg, d+1) {
+						return false
+					}
+				}
+				return true
+			}
 			for _, cf := range cs {
-				if cf.Name() != "CloseListener" {
+				if !isLeave(cf, 0) {
 					onlyLeaves = false
 				}
 			}
